@@ -107,6 +107,10 @@ class TGen:
                 if r.random() < 0.1:
                     del ra['name']
                 radios.append(('e', 'input', ra, []))
+            if r.random() < 0.35:
+                # other inputs among the radios: without a type, without a name, with odd spellings
+                odd = self.pick([{'name': 'q'}, {}, {'name': 'g'}, {'type': '', 'name': 'g'}, {'TYPE': 'radio', 'name': 'g'}, {'type': 'radio'}])
+                radios.insert(r.randrange(len(radios) + 1), ('e', 'input', dict(odd), []))
             return ('e', self.pick(['div', 'p', 'span']), {}, radios)
         if kind == 'submit':
             sub = ('e', self.pick(['input', 'button']), {'type': self.pick(['submit', 'SUBMIT', 'submit'])}, [])
